@@ -563,7 +563,7 @@ FAULTS = [
         b"(1.5 % 2)", b"(1 <<< 1.5)", b'(1 &&& "s")', b"(~~~1.5)", b"(true + true)", b"('a' * 'b')", b'("a" - "b")', b"(nil == 1)",
         b"(twice == 1)", b"(C::R < C::G)", b"(1 == 1.5)", b"(1L + 1.5)", b'(1 ? "a" : 2)', b"(nil ? 1 : 2)", b"(twice(1.5))",
         b'(twice("s"))', b"(twice(nil))", b"(length(1))", b'(ord("ab"))', b"(chr(1.5))", b'(str(nil))', b"(assert(1))",
-        b"({ 1; \"s\" })", b"(if (1) { 1 } else { 2 })", b'(if (true) { 1 } else { "s" })', b"(while (1) { 1 })", b"(for (i in 5) { i })",
+        b"({ 1; \"s\" })", b"(if (1) { 1 } else { 2 })", b'(if (true) { 1 } else { "s" })', b'(while ("s") { 1 })', b"(for (i in nil) { i })",
         b"([ 1, \"s\" ] : int)[0]", b"([ [ 1 ], [ 1, 2 ] ] : int)[0, 0]", b"({[ 1.5 ]} : int)[0]", b"(P(1, 2).x.y)", b"(C::R.x)",
         b"(let func (a : int) -> int { a })", b"(let func () -> int { \"s\" }())", b"(match (1) { 1 -> 2; })",
         b"(match (C::R) { C::R -> 1; C::G -> \"s\"; C::B -> 3; })", b"(match (C::R) { else -> nil; })", b"(1 : string)", b"(nil : int)"])),
